@@ -114,6 +114,16 @@ def check(rep, tier, rng):
 
 def replay(rep, r):
     t3.build()
+    if r.get("kind") == "emitted-parameter-lists-differ-from-reachability":
+        import re
+        g = run_lines([t3.FRONT], ["gen d " + t3.hx(r["text"])])[0]
+        if not g.startswith("ok "):
+            print("generate:", g[:80]); return 0
+        text = bytes.fromhex(g[3:]).decode("utf-8", "replace")
+        impls = set(re.findall(r"for ([A-Za-z_0-9]+)<Bytes>", text))
+        want = set(x for x in r.get("expected_generics", "").split(",") if x)
+        print("impl headers with <Bytes>:", sorted(impls)); print("reachability            :", sorted(want))
+        return 0 if impls == want else 1
     text = r.get("text") or r["first_difference"]["text"]
     impl, model = t3.run_texts([text])[0]
     print("impl :", impl)
